@@ -21,7 +21,7 @@ type WFaultCase struct {
 	OnlyKind string `json:"only_kind,omitempty"`
 }
 
-var wfaultKinds = []string{xport.FaultError, xport.FaultTimeout, xport.FaultShort}
+var wfaultKinds = []string{xport.FaultError, xport.FaultTimeout, xport.FaultShort, xport.FaultTemporary, xport.FaultShortTemporary}
 
 func genWFaultCase(t *rapid.T) WFaultCase {
 	var c WFaultCase
@@ -177,7 +177,9 @@ func runWFault(c WFaultCase, k int, kind string, wire0 []byte, o *Obs) error {
 	}
 	f := tw.Calls[fc]
 	switch f.API {
-	case "WriteMessage", "WriteControl", "WriteJSON", "WritePreparedMessage", "Close":
+	case "WriteMessage", "WriteControl", "WriteJSON", "WritePreparedMessage", "Close", "NextWriter":
+		// (a NextWriter call touches the transport only to flush the final frame
+		// of a writer the application left open)
 		if f.Err == nil && !f.Bad {
 			return fmt.Errorf("step %d %s returned nil although a transport operation failed while it was writing its message", f.Step, f.API)
 		}
